@@ -85,16 +85,27 @@ GNext ==
            \E c0 \in {Pick({0, 1, 2, 3, 5, 1009}, N)} :
            \E so \in {Pick({-1, -1, r, (r + Min(e, m)) \div 2, Min(e, m), Min(e, m) + 77, r - 3}, N)} :
            \E es \in {Pick({-1, r - 1, r + 5, 1000000}, N)} :
-           LET q == [budget |-> b, weight |-> w, maxrate |-> m, relay |-> r, totalin |-> ti, reqout |-> ro,
-                     dust |-> sh[4], deadline |-> H0 + c0,
-                     sopt |-> IF Main /\ ~(so < 0 \/ (so >= r /\ so <= Min(BudgetRateFloor(b, w), m))) THEN -1 ELSE so,
-                     est |-> es] IN
+           \E pt \in {Pick(1..4, N)} : \E ag \in {Pick({0, 1}, N)} :
+           LET sq == IF Main /\ ~(so < 0 \/ (so >= r /\ so <= Min(BudgetRateFloor(b, w), m))) THEN -1 ELSE so
+               n  == sh[1] + sh[2] + sh[3]
+               lo == Max(1, sq \div 2)
+               \* the rates the inputs of the set were offered before (0: never): the largest one first,
+               \* last, first followed by lower ones, in the middle between lower ones and fresh inputs
+               pv == [i \in 1..n |->
+                        IF sq < 0 THEN 0
+                        ELSE CASE pt = 1 -> IF i = 1 THEN sq ELSE 0
+                               [] pt = 2 -> IF i = n THEN sq ELSE 0
+                               [] pt = 3 -> IF i = 1 THEN sq ELSE lo
+                               [] pt = 4 -> IF i = (n + 1) \div 2 THEN sq ELSE IF i % 2 = 0 THEN lo ELSE 0]
+               q == [budget |-> b, weight |-> w, maxrate |-> m, relay |-> r, totalin |-> ti, reqout |-> ro,
+                     dust |-> sh[4], deadline |-> H0 + c0, sopt |-> sq, est |-> es,
+                     prevmax |-> IF sq > 0 THEN sq ELSE 0] IN
            /\ Main => ReqInMain(q)
            /\ Request(q)
            /\ Rec([a |-> "Req", nk |-> sh[1], nt |-> sh[2], nr |-> sh[3], budget |-> q.budget,
                    maxrate |-> q.maxrate, relay |-> q.relay, totalin |-> q.totalin, reqout |-> q.reqout,
                    dust |-> q.dust, deadline |-> q.deadline, sopt |-> q.sopt, est |-> q.est,
-                   weight |-> q.weight])
+                   weight |-> q.weight, prevs |-> pv, agg |-> ag])
            /\ gh' = H0 /\ nretry' = 0
      \/ /\ nretry < 2 /\ Retry /\ Rec([a |-> "Retry"]) /\ nretry' = nretry + 1 /\ UNCHANGED gh
      \/ \E h \in {gh, gh + 1} : \E e \in EndRates :
